@@ -119,6 +119,7 @@ func c02Readers() []c02Reader {
 	buffered := func(b []byte) io.Reader { return bufio.NewReaderSize(bytes.NewReader(b), 64) }
 	stutter := func(b []byte) io.Reader { return &lab.StutterReader{B: b} }                                     // (0,nil) calls, tiny pieces, data+EOF
 	dataErr := func(b []byte) io.Reader { return iotest.DataErrReader(lab.PlainReader{R: bytes.NewReader(b)}) } // last byte comes with io.EOF
+	eofSeek := func(b []byte) io.Reader { return lab.EOFSeeker{R: bytes.NewReader(b)} } // seekable, last bytes come with io.EOF
 	inspect := func(validate bool) func([]byte) ([]refcar.Block, bool, error) {
 		return func(in []byte) ([]refcar.Block, bool, error) {
 			rd, err := carv2.NewReader(bytes.NewReader(in))
@@ -141,6 +142,18 @@ func c02Readers() []c02Reader {
 		{name: "v2.BlockReader.SkipNext(data+EOF reader)", run: skip(dataErr)},
 		{name: "v2.BlockReader.Next(stutter reader)", hashes: true, returns: true, run: next(stutter)},
 		{name: "v2.BlockReader.SkipNext(stutter reader)", run: skip(stutter)},
+		{name: "v2.BlockReader.Next(seeker, data+EOF)", hashes: true, returns: true, run: next(eofSeek)},
+		{name: "v2.BlockReader.SkipNext(seeker, data+EOF)", run: skip(eofSeek)},
+		{name: "v2.Reader.Inspect(true) over a ReaderAt returning EOF with the last full read", hashes: true, run: func(in []byte) ([]refcar.Block, bool, error) {
+			rd, err := carv2.NewReader(lab.EOFReaderAt{B: in})
+			if err != nil {
+				return nil, false, err
+			}
+			if _, err = rd.Inspect(true); err != nil {
+				return nil, false, err
+			}
+			return nil, true, nil
+		}},
 		{name: "v2.BlockReader.SkipNext(bufio.Reader)", run: skip(buffered)},
 		{name: "v2.BlockReader.SkipNext(bytes.Reader)", run: skip(seekable)},
 		{name: "v2.BlockReader.SkipNext(plain)", run: skip(plain)},
